@@ -80,9 +80,9 @@ func (txn *Txn) rangeWrite(fn func(commitID uint64, chunk commit.Chunk, fill bit
 	txn.dirty.Range(func(x uint32) {
 		chunk := commit.Chunk(x)
 		verifYield("commit.before", txn, x)
+		lock.Lock(uint(chunk))
 		commitID := commit.Next()
 		verifYield("commit.drawn", txn, x)
-		lock.Lock(uint(chunk))
 
 		// Compute the fill and set the last commit ID
 		txn.owner.lock.RLock()
